@@ -21,6 +21,15 @@
 (*   "expired_blind"   get's expired path removes whatever is indexed and  *)
 (*                     always decrements                                   *)
 (*   "no_recheck"      get returns the bytes it read without re-checking   *)
+(*   "cleanup_late_count"  (F11f) the background cleanup task subtracts    *)
+(*                     what it swept from the counters after it released   *)
+(*                     the lock                                            *)
+(*                                                                         *)
+(* The background cleanup task (DiskCache::new_with_cleanup) is a task     *)
+(* like the others: one "sweep" operation = one tick of its interval.      *)
+(* It removes every expired entry (index entry + file) under the write     *)
+(* lock, passes the sched point "disk.cleanup.swept" (lock released), and  *)
+(* finishes.                                                               *)
 (***************************************************************************)
 EXTENDS Integers, Sequences, FiniteSets, TLC
 
@@ -121,6 +130,25 @@ GetConfirm(t) ==
      THEN Finish(t) /\ UNCHANGED <<index, file, cnt, mem>>
      ELSE Again(t) /\ UNCHANGED <<index, file, cnt, mem>>
 
+\* ---- sweep: one tick of the background cleanup task -----------------------------
+RECURSIVE SumE(_, _)
+SumE(m, S) == IF S = {} THEN 0 ELSE LET k == CHOOSE x \in S : TRUE IN m[k].size + SumE(m, S \ {k})
+SweepDo(t) ==
+  /\ pc[t] = "start" /\ Cur(t).op = "sweep"
+  /\ LET X == {k \in Keys : index[k] # None /\ index[k].exp} IN
+     /\ index' = [k \in Keys |-> IF k \in X THEN None ELSE index[k]]
+     /\ file'  = [k \in Keys |-> IF k \in X THEN 0 ELSE file[k]]
+     /\ IF "cleanup_late_count" \in Variant
+        THEN /\ loc' = [loc EXCEPT ![t] = [n |-> Cardinality(X), bytes |-> SumE(index, X)]]
+             /\ UNCHANGED <<cnt, mem>>
+        ELSE /\ loc' = [loc EXCEPT ![t] = [n |-> 0, bytes |-> 0]]
+             /\ cnt' = cnt - Cardinality(X) /\ mem' = mem - SumE(index, X)
+  /\ Park(t, "disk.cleanup.swept")
+SweepCount(t) ==
+  /\ pc[t] = "disk.cleanup.swept"
+  /\ cnt' = cnt - loc[t].n /\ mem' = mem - loc[t].bytes
+  /\ Finish(t) /\ UNCHANGED <<index, file>>
+
 \* ---- contains / remove / clear: one step each (under the lock) ----------------
 Contains(t) ==
   /\ pc[t] = "start" /\ Cur(t).op = "contains"
@@ -138,11 +166,17 @@ Clear(t) ==
   /\ index' = [k \in Keys |-> None] /\ file' = [k \in Keys |-> 0] /\ cnt' = 0 /\ mem' = 0
   /\ Finish(t)
 
+Size(t) ==
+  /\ pc[t] = "start" /\ Cur(t).op = "size"
+  /\ Finish(t) /\ UNCHANGED <<index, file, cnt, mem>>
+
 Step(t) ==
   /\ Running(t)
-  /\ \/ PutOpen(t) \/ PutWrite(t) \/ PutPublish(t) \/ PutIndex(t)
+  /\ \/ Size(t)
+     \/ PutOpen(t) \/ PutWrite(t) \/ PutPublish(t) \/ PutIndex(t)
      \/ GetLookup(t) \/ GetAct(t) \/ GetConfirm(t)
      \/ Contains(t) \/ Remove(t) \/ Clear(t)
+     \/ SweepDo(t) \/ SweepCount(t)
   /\ UNCHANGED prog
   /\ last' = t
   /\ pre' = IF last # 0 /\ last # t /\ Running(last) THEN pre + 1 ELSE pre
